@@ -345,11 +345,18 @@ class Model:
     def remove_all(self):
         self.points = []
 
-    def update(self, q, args, m=None):
+    def update(self, q, args, m=None, in_place=False):
+        """`in_place`: the storage keeps the caller-visible objects themselves and the update edits them before it
+        knows whether anything changed (MemoryStorage): an update to an EQUAL value still leaves the new representation
+        (0 -> -0.0) behind.  A CSV database rewrites nothing in that case and keeps the old representation."""
         changed = 0
         for i in self._sel(q, m):
             new = apply_update(self.points[i], args)
             if new != self.points[i]:
                 changed += 1
-            self.points[i] = new
+                self.points[i] = new
+            elif in_place:
+                self.points[i] = new
+            # else: an update that leaves an EQUAL point (e.g. 0 -> -0.0, 1 -> 1.0) changes nothing: the stored
+            # representation stays what it was (only a sign- or type-sensitive predicate can tell the difference)
         return changed
